@@ -22,6 +22,7 @@ type WorkReq struct {
 	Files  map[string]string `json:"files"` // name -> hex
 	Root   string            `json:"root"`
 	Banned []int             `json:"banned,omitempty"`
+	Ctx    string            `json:"ctx,omitempty"` // context-level token sequence (protocol syntax): run scan + paste phases only
 }
 
 type WorkResp struct {
@@ -31,10 +32,16 @@ type WorkResp struct {
 	Err      *ErrInfo `json:"err,omitempty"`
 	JSONSum  string   `json:"json_sum,omitempty"`
 	JSONLen  int      `json:"json_len,omitempty"`
+	CtxScan  string   `json:"ctx_scan,omitempty"`
+	CtxPaste string   `json:"ctx_paste,omitempty"`
+	CtxOther bool     `json:"ctx_other,omitempty"`
 	LibFault string   `json:"lib_fault,omitempty"`
 }
 
 func reqOf(p Project) WorkReq {
+	if p.Root == "\x00ctx" {
+		return WorkReq{Ctx: string(p.Files["ctx"])}
+	}
 	r := WorkReq{Files: map[string]string{}, Root: p.Root}
 	for k, v := range p.Files {
 		r.Files[k] = hex.EncodeToString(v)
@@ -78,8 +85,14 @@ func workerMain() {
 		if len(line) > 0 {
 			var req WorkReq
 			if json.Unmarshal([]byte(line), &req) == nil {
-				res := RunProject(projectOf(req), false)
-				b, _ := json.Marshal(respOf(res))
+				var b []byte
+				if req.Ctx != "" {
+					cr := runCtx(parseCToks(req.Ctx))
+					b, _ = json.Marshal(WorkResp{Verdict: "ctx", Panic: cr.Panic, CtxScan: cr.Scan, CtxPaste: cr.Paste, CtxOther: cr.Other})
+				} else {
+					res := RunProject(projectOf(req), false)
+					b, _ = json.Marshal(respOf(res))
+				}
 				out.Write(b)
 				out.WriteByte('\n')
 				out.Flush()
@@ -240,4 +253,24 @@ func firstLines(s string, n int) string {
 		ll = ll[:n]
 	}
 	return strings.Join(ll, "\n")
+}
+
+// RunCtxInWorkers runs the scan and paste phases of token sequences in child processes (a macro cycle
+// that is not rejected is a fatal stack overflow).
+func RunCtxInWorkers(seqs [][]CTok) []ctxRun {
+	pp := make([]Project, len(seqs))
+	for i, s := range seqs {
+		pp[i] = Project{Files: map[string][]byte{"ctx": []byte(ctoksProto(s))}, Root: "\x00ctx"}
+	}
+	res := RunInWorkers(pp, 2*time.Second)
+	out := make([]ctxRun, len(seqs))
+	for i, r := range res {
+		switch {
+		case r.Resp == nil:
+			out[i] = ctxRun{Panic: "process died or timed out: " + trunc(r.Crashed, 400)}
+		default:
+			out[i] = ctxRun{Scan: r.Resp.CtxScan, Paste: r.Resp.CtxPaste, Other: r.Resp.CtxOther, Panic: r.Resp.Panic}
+		}
+	}
+	return out
 }
